@@ -11,9 +11,9 @@ META = {
              'dump(ast.parse(result.src)) == dump(reference) (when the reference round-trips through unparse), C01 oracle on the result, subn counts == number of reference '
              'replacements, identity template leaves the structure unchanged, every line lying wholly outside all matched nodes\' line ranges is preserved in order. Recipes: '
              'whole-match wrap, MOR wrap (nested on/off), operand swap, If inversion with body/orelse captures, With body/items capture, Dict item capture, identity, count, '
-             'on=leave, the repository golden sub inputs. A cell is (recipe, settings, number of matches class).'),
+             'on=leave, the repository golden sub inputs. A cell is (recipe, settings, number of matches class). Recipes also include a list fold with loop in {False,1,2,3,True} (reference counts substitutions per location: subn total) and an Assign -> \'with __FST_v as __FST_n\' rewrite; a reference that does not read back as itself is out of scope.'),
     'budget': {'quick': 45, 'thorough': 900},
-    'floors': {'quick': {'substitutions_judged': 2500, 'matches_replaced': 8000}, 'thorough': {'substitutions_judged': 80000, 'matches_replaced': 250000}},
+    'floors': {'quick': {'loop_substitutions_judged': 800, 'substitutions_judged': 2500, 'matches_replaced': 8000}, 'thorough': {'loop_substitutions_judged': 5000, 'substitutions_judged': 80000, 'matches_replaced': 250000}},
     'shares_c01_oracle': True,
     'assumptions': ['match() itself is established by C17; the reference uses it only to locate matches', 'loop is checked only through termination/identity (its fixed point is defined by pfst\'s own re-matching)'],
     'technique': 'runtime monitoring: reference-model comparison (ast.NodeTransformer-style pure AST rewrite) at the sub()/subn() boundary',
